@@ -217,6 +217,11 @@ def run(ctx):
     parts.run("reader object re-used after abandoned calls", run_sessions, res, random.Random(ctx["seed"] * 7919 + 101), ctx["tier"])
     parts.run("reader object re-used: calls abandoned at Frame.create, repeated / unknown-kind frames, deliveries modified by the caller",
               run_sessionsx, res, random.Random(ctx["seed"] * 7919 + 103), ctx["tier"])
+    # the same reader / connection in a process with HISTORY (calls abandoned at every suspension point of read(), the
+    # Frame.create executor hop with its job pending included; each history in a fresh python process): harness/history.py
+    import history
+    parts.run("reader histories with abandoned calls, in fresh processes", history.evaluate, res,
+              random.Random(ctx["seed"] * 7919 + 105), ctx["tier"], "C01", 8 if ctx["tier"] == "quick" else None)
     parts.finish()
     res.failures.sort(key=lambda f: (f["kind"] != "spec", len(str(f.get("input")))))
     return res
@@ -424,7 +429,13 @@ def run_sessions(res, rng, tier, cases=None):
         canon, pos = [], 0
         for e in ev:
             n = e[-2] if e[0] == "A" else e[-1]
-            if e[0] == "A":
+            if e[0] == "D*":
+                # a tree on which Frame.create does not suspend in every call: the call completed where the model's caller abandoned
+                # it.  The delivery is judged like every other one (below); for the comparison the call counts as the model's abandoned call
+                res.count("create-hop-did-not-suspend")
+                e = ("D",) + tuple(e[1:])
+                canon.append(("A", n))
+            elif e[0] == "A":
                 canon.append(("A", e[1]))
                 res.count("abandoned:" + e[2])
                 if e[2] not in ("cancelled", "TimeoutError"):
@@ -601,6 +612,8 @@ def _sessionx(steps, how, mutate, fresh):
                 t = await start(True)
                 if t.done() and not t.cancelled():
                     alive = record(t)
+                    if out and out[-1][0] == "D":
+                        out[-1] = ("D*",) + out[-1][1:]   # delivered although the executor was held: Frame.create did not suspend in this call
                 else:
                     await abandon(t)
             if not alive:
@@ -641,7 +654,13 @@ def run_sessionsx(res, rng, tier, cases=None):
         canon, pos = [], 0
         for e in ev:
             n = e[-2] if e[0] == "A" else e[-1]
-            if e[0] == "A":
+            if e[0] == "D*":
+                # a tree on which Frame.create does not suspend in every call: the call completed where the model's caller abandoned
+                # it.  The delivery is judged like every other one (below); for the comparison the call counts as the model's abandoned call
+                res.count("create-hop-did-not-suspend")
+                e = ("D",) + tuple(e[1:])
+                canon.append(("A", n))
+            elif e[0] == "A":
                 canon.append(("A", e[1]))
                 res.count("abandoned:" + e[2])
                 if e[2] not in ("cancelled", "TimeoutError"):
@@ -730,6 +749,13 @@ def neighbourhood(res, rng, differing, budget=6000):
 def replay(ctx):
     """re-run one recorded failing input on implementation and model"""
     f = ctx["replay"]["failure"] if "failure" in ctx["replay"] else ctx["replay"].get("first_difference")
+    if f["input"].get("via") == "history":
+        import history
+        res = Result("C01")
+        res.rule = "replay of one recorded history of reader sessions in a fresh process"
+        history.replay_case(res, f["input"], "C01")
+        res.case(str(f["input"]["scenario"]))
+        return res
     if "sessionx" in f["input"]:
         res = Result("C01")
         res.rule = "replay of one recorded reader session (calls abandoned at any await, deliveries modified by the caller)"
